@@ -82,52 +82,38 @@ Proof. intros v. apply linf_le_iff; [apply linf_nonneg | lra]. Qed.
 Definition feasible_within (eps : Q) (ceq cineq : vec) : Prop :=
   Forall (fun h => qabs h <= eps) ceq /\ Forall (fun g => qmax g 0 <= eps) cineq.
 
-(* hypotheses on the rounded operations: division keeps the sign, gamma * ro stays positive *)
-Definition rops_ok (R : rops) : Prop :=
-  (forall a b, a <= 0 -> 0 < b -> rdiv R a b <= 0) /\
-  (forall g r, 1 < g -> 0 < r -> 0 < rmul R g r).
-
-Lemma exact_rops_ok : rops_ok exact_rops.
+(* |max(g, sh)| bounds max(g, 0) whatever the shift sh = -miu/ro is (any sign, any rounding) *)
+Lemma shifted_bound : forall g sh, qabs (qmax g 0) <= qabs (qmax g sh).
 Proof.
-  split; simpl.
-  - intros a b Ha Hb. unfold Qdiv.
-    assert (Hi : 0 < / b) by (apply Qinv_lt_0_compat; exact Hb).
-    setoid_replace 0 with (0 * / b) by ring. apply Qmult_le_compat_r; lra.
-  - intros g r Hg Hr. apply Qmult_lt_0_compat; lra.
-Qed.
-
-Lemma shifted_bound : forall g sh, sh <= 0 -> qabs (qmax g 0) <= qabs (qmax g sh).
-Proof.
-  intros g sh Hs. unfold qabs, qmax.
-  qcase g 0; qcase g sh; qcase 0 0; try lra;
+  intros g sh. unfold qabs, qmax. qcase g 0; qcase g sh;
     repeat match goal with |- context [Qle_bool ?a ?b] => qcase a b end; lra.
 Qed.
 
-Lemma criterion_ineq_part : forall R cineq miu ro b,
-  rops_ok R -> 0 < ro -> Forall (fun m => 0 <= m) miu -> length miu = length cineq ->
-  Forall (fun a => qabs a <= b) (map2 qmax cineq (map (fun m => rdiv R (- m) ro) miu)) ->
+Lemma criterion_ineq_part : forall (sh : vec) cineq b,
+  length sh = length cineq ->
+  Forall (fun a => qabs a <= b) (map2 qmax cineq sh) ->
   Forall (fun g => qmax g 0 <= b) cineq.
 Proof.
-  intros R cineq miu ro b [Hdiv _] Hro. revert miu.
-  induction cineq as [|g cineq IH]; intros miu Hm Hl Hall; [constructor|].
-  destruct miu as [|m miu]; [discriminate|]. simpl in *.
-  inversion Hm; subst. inversion Hall; subst. constructor.
-  - assert (Hs : rdiv R (- m) ro <= 0) by (apply Hdiv; lra).
-    pose proof (shifted_bound g _ Hs). pose proof (qabs_le (qmax g 0)). lra.
-  - apply IH with (miu := miu); auto.
+  intros sh cineq b. revert sh.
+  induction cineq as [|g cineq IH]; intros sh Hl Hall; [constructor|].
+  destruct sh as [|m sh]; [discriminate|]. simpl in *.
+  inversion Hall; subst. constructor.
+  - pose proof (shifted_bound g m). pose proof (qabs_le (qmax g 0)). lra.
+  - apply IH with (sh := sh); auto.
 Qed.
 
 Lemma criterion_bounds_violation : forall R ceq cineq miu ro b,
-  rops_ok R -> 0 < ro -> Forall (fun m => 0 <= m) miu -> length miu = length cineq ->
+  length miu = length cineq ->
   criterion R ceq cineq miu ro <= b -> feasible_within b ceq cineq.
 Proof.
-  intros R ceq cineq miu ro b HR Hro Hm Hl Hc. unfold criterion in Hc.
+  intros R ceq cineq miu ro b Hl Hc. unfold criterion in Hc.
   apply qmax_le_iff in Hc. destruct Hc as [Hh Hv].
   assert (Hb : 0 <= b) by (pose proof (linf_nonneg ceq); lra).
   split.
   - apply linf_le_iff; assumption.
-  - apply criterion_ineq_part with (R := R) (miu := miu) (ro := ro); auto.
-    apply linf_le_iff; assumption.
+  - apply criterion_ineq_part with (sh := map (fun m => rdiv R (- m) ro) miu).
+    + rewrite map_length. exact Hl.
+    + apply linf_le_iff; assumption.
 Qed.
 
 Lemma feasible_within_mono : forall a b ceq cineq, a <= b -> feasible_within a ceq cineq -> feasible_within b ceq cineq.
@@ -135,22 +121,14 @@ Proof.
   intros a b ceq cineq Hab [H1 H2]. split; eapply Forall_impl; try eassumption; simpl; intros; lra.
 Qed.
 
-(* the initial criterion (zero multipliers) is itself a bound *)
-Lemma Forall_repeat : forall (P : Q -> Prop) x n, P x -> Forall P (repeat x n).
-Proof. intros P x n H. induction n; simpl; constructor; assumption. Qed.
-
 (* ------------------------------------------------------------------------------------------------ *)
-(* the invariant of the outer loop                                                                  *)
+(* the invariant of the outer loop: the best state violates the constraints by at most old_criterion *)
 (* ------------------------------------------------------------------------------------------------ *)
 Record al_inv (P : al_params) (nin : nat) (s : al_state) : Prop := mkinv {
-  inv_ro : 0 < s_ro s;
-  inv_miu : Forall (fun m => 0 <= m) (s_miu s);
   inv_len : length (s_miu s) = nin;
   inv_best : feasible_within (s_old s) (s_ceq s) (s_cineq s);
   inv_conv : s_status s = Converged -> feasible_within (p_eps P) (s_ceq s) (s_cineq s);
   inv_run : s_stopped s = false -> s_status s = MaxIters }.
-
-Definition params_ok (P : al_params) : Prop := 1 < p_gamma P /\ 0 <= p_miu_max P.
 
 Lemma map2_length : forall {A B C} (f : A -> B -> C) l1 l2,
   length l1 = length l2 -> length (map2 f l1 l2) = length l1.
@@ -158,27 +136,18 @@ Proof.
   induction l1 as [|a l1 IH]; intros l2 H; destruct l2; simpl in *; try discriminate; auto.
 Qed.
 
-Lemma miu_update_nonneg : forall (f : Q -> Q -> Q) mx miu cineq, 0 <= mx ->
-  Forall (fun m => 0 <= m) (map2 (fun m c => qmin (qmax (f m c) 0) mx) miu cineq).
-Proof.
-  intros f mx. induction miu as [|m miu IH]; intros cineq Hmx; destruct cineq; simpl; constructor; auto.
-  apply qmin_glb; [apply qmax_r | exact Hmx].
-Qed.
-
-Lemma status_of_Z_converged : forall conv, status_of_Z (src_done_status conv) = Converged -> conv = true.
-Proof. intros [|]; unfold src_done_status, status_of_Z; simpl; [reflexivity | discriminate]. Qed.
+Lemma status_of_Z_converged : forall conv valid, status_of_Z (src_done_status conv valid) = Converged -> conv = true.
+Proof. intros [|] [|]; unfold src_done_status, status_of_Z; simpl; try reflexivity; discriminate. Qed.
 
 Lemma al_step_inv : forall R P nin s e,
-  rops_ok R -> params_ok P -> length (e_cineq e) = nin ->
-  al_inv P nin s -> al_inv P nin (al_step R P s e).
+  length (e_cineq e) = nin -> al_inv P nin s -> al_inv P nin (al_step R P s e).
 Proof.
-  intros R P nin s e HR [Hg Hmx] Hlen I.
-  destruct I as [Iro Imiu Ilen Ibest Iconv Irun].
-  pose proof HR as [_ Hmul].
+  intros R P nin s e Hlen I.
+  destruct I as [Ilen Ibest Iconv Irun].
   unfold al_step.
   set (crit := criterion R (e_ceq e) (e_cineq e) (s_miu s) (s_ro s)).
   assert (Hcrit : feasible_within crit (e_ceq e) (e_cineq e)).
-  { apply criterion_bounds_violation with (R := R) (miu := s_miu s) (ro := s_ro s); auto; try lia.
+  { apply criterion_bounds_violation with (R := R) (miu := s_miu s) (ro := s_ro s); try lia.
     unfold crit. lra. }
   unfold src_al_converged, src_al_update, src_done_stop, src_done_step_ok.
   destruct (e_ok e) eqn:Eok; simpl.
@@ -194,11 +163,9 @@ Proof.
            eapply feasible_within_mono; [exact Hle | exact Hcrit].
         -- discriminate.
       * constructor; simpl; auto.
-        -- destruct (src_al_grow (s_outer s) (qltb (rmul R (p_tau P) (s_old s)) crit)); auto.
-        -- apply miu_update_nonneg. exact Hmx.
         -- rewrite map2_length; lia.
         -- discriminate.
-    + (* no improvement: the best state stays *)
+    + (* no improvement: the best state stays; criterion >= old_criterion >= its violation *)
       destruct ((Qle_bool crit (p_eps P) && e_dx e) || negb (e_bvalid e)) eqn:Estop.
       * constructor; simpl; auto.
         -- intro Hs. apply status_of_Z_converged in Hs.
@@ -206,8 +173,6 @@ Proof.
            eapply feasible_within_mono; [|exact Ibest]. lra.
         -- discriminate.
       * constructor; simpl; auto.
-        -- destruct (src_al_grow (s_outer s) (qltb (rmul R (p_tau P) (s_old s)) crit)); auto.
-        -- apply miu_update_nonneg. exact Hmx.
         -- rewrite map2_length; lia.
         -- eapply feasible_within_mono; [|exact Ibest]. lra.
         -- discriminate.
@@ -216,23 +181,19 @@ Proof.
 Qed.
 
 Lemma al_run_inv : forall R P nin es s,
-  rops_ok R -> params_ok P -> Forall (fun e => length (e_cineq e) = nin) es ->
-  al_inv P nin s -> al_inv P nin (al_run R P s es).
+  Forall (fun e => length (e_cineq e) = nin) es -> al_inv P nin s -> al_inv P nin (al_run R P s es).
 Proof.
-  intros R P nin es. induction es as [|e es IH]; intros s HR HP Hes I; simpl; [exact I|].
+  intros R P nin es. induction es as [|e es IH]; intros s Hes I; simpl; [exact I|].
   inversion Hes; subst.
   destruct (negb (s_stopped s) && src_al_loop (s_outer s) (p_max_outers P)); [|exact I].
   apply IH; auto. apply al_step_inv; auto.
 Qed.
 
-Lemma al_init_inv : forall R P x0 ceq0 cineq0 ro0,
-  rops_ok R -> 0 < ro0 -> al_inv P (length cineq0) (al_init R x0 ceq0 cineq0 ro0).
+Lemma al_init_inv : forall R P x0 ceq0 cineq0 ro0, al_inv P (length cineq0) (al_init R x0 ceq0 cineq0 ro0).
 Proof.
-  intros R P x0 ceq0 cineq0 ro0 HR Hro. unfold al_init. constructor; simpl; auto.
-  - apply Forall_repeat. lra.
+  intros R P x0 ceq0 cineq0 ro0. unfold al_init. constructor; simpl; auto.
   - apply repeat_length.
-  - apply criterion_bounds_violation with (R := R) (miu := repeat 0 (length cineq0)) (ro := ro0); auto.
-    + apply Forall_repeat. lra.
+  - apply criterion_bounds_violation with (R := R) (miu := repeat 0 (length cineq0)) (ro := ro0).
     + apply repeat_length.
     + lra.
   - discriminate.
@@ -261,13 +222,12 @@ Proof.
 Qed.
 
 Theorem al_feasible : forall R P x0 ceq0 cineq0 ro0 es,
-  rops_ok R -> params_ok P -> 0 < ro0 ->
   Forall (fun e => length (e_cineq e) = length cineq0) es ->
   let s := al_run R P (al_init R x0 ceq0 cineq0 ro0) es in
   (s_status s = Converged -> feasible_within (p_eps P) (s_ceq s) (s_cineq s)) /\
   (triple_of s = (x0, ceq0, cineq0) \/ In (triple_of s) (map ev_triple es)).
 Proof.
-  intros R P x0 ceq0 cineq0 ro0 es HR HP Hro Hes s. split.
+  intros R P x0 ceq0 cineq0 ro0 es Hes s. split.
   - apply (inv_conv P (length cineq0) s).
     apply al_run_inv; auto. apply al_init_inv; auto.
   - apply (al_run_triple R P es (al_init R x0 ceq0 cineq0 ro0)).
@@ -776,7 +736,9 @@ Proof. intros k a b Hk H. nra. Qed.
    2 k max(0,t), convex; monotone, so it composes with a convex constraint *)
 Lemma hinge_square0 : forall t s ty, t + s <= ty ->
   qmax 0 t * qmax 0 t + (2 * qmax 0 t) * s <= qmax 0 ty * qmax 0 ty.
-Proof. intros t s ty Hy. unfold qmax. qcases; try lra; nra. Qed.
+Proof.
+  intros t s ty Hy. unfold qmax. qcases; try lra; destruct (Qlt_le_dec (t + s) 0); nra.
+Qed.
 Lemma term_hinge_square : forall k t s ty, 0 <= k -> t + s <= ty ->
   k * qmax 0 t * qmax 0 t + (2 * k * qmax 0 t) * s <= k * qmax 0 ty * qmax 0 ty.
 Proof.
@@ -785,7 +747,9 @@ Proof.
 Qed.
 Lemma hinge_square_upper0 : forall t s,
   qmax 0 (t + s) * qmax 0 (t + s) <= qmax 0 t * qmax 0 t + (2 * qmax 0 t) * s + s * s.
-Proof. intros t s. unfold qmax. qcases; try lra; nra. Qed.
+Proof.
+  intros t s. unfold qmax. qcases; try lra; nra.
+Qed.
 Lemma term_hinge_square_upper : forall k t s, 0 <= k ->
   k * qmax 0 (t + s) * qmax 0 (t + s) <= k * qmax 0 t * qmax 0 t + (2 * k * qmax 0 t) * s + k * s * s.
 Proof.
@@ -818,3 +782,297 @@ Lemma hinge_derivative0 : forall v s, qabs s < qabs v -> qmax 0 (v + s) == qmax 
 Proof. intros v s. unfold qabs, qmax, pos. qcases; intro H; lra. Qed.
 Lemma term_hinge_derivative : forall k v s, qabs s < qabs v -> k * qmax 0 (v + s) == k * qmax 0 v + (k * pos v) * s.
 Proof. intros k v s H. rewrite (hinge_derivative0 v s H). ring. Qed.
+
+(* ================================================================================================ *)
+(* the gradient of every non-functional constraint kind is the derivative of its value:              *)
+(* exact expansion c(x + d) = c(x) + grad c(x) . d + remainder(d), remainder quadratic in d          *)
+(* ================================================================================================ *)
+Lemma dot_vadd_r : forall u x d, length x = length d -> dot u (vadd x d) == dot u x + dot u d.
+Proof.
+  induction u as [|a u IH]; intros x d H; simpl; [ring|].
+  destruct x as [|b x], d as [|c d]; simpl in H; try discriminate; simpl; [ring|].
+  rewrite IH by lia. ring.
+Qed.
+
+Lemma dot_vadd_l : forall x d u, length x = length d -> dot (vadd x d) u == dot x u + dot d u.
+Proof.
+  induction x as [|b x IH]; intros d u H; destruct d as [|c d]; simpl in H; try discriminate; simpl; [ring|].
+  destruct u as [|a u]; simpl; [ring|]. rewrite IH by lia. ring.
+Qed.
+
+Lemma dot_comm : forall u v, dot u v == dot v u.
+Proof.
+  induction u as [|a u IH]; intros v; destruct v as [|b v]; simpl; try ring. rewrite IH. ring.
+Qed.
+
+Lemma mv_vadd : forall P u x d, length x = length d ->
+  dot u (mv P (vadd x d)) == dot u (mv P x) + dot u (mv P d).
+Proof.
+  induction P as [|row P IH]; intros u x d H; destruct u as [|a u]; simpl; try ring.
+  rewrite (dot_vadd_r row x d H), (IH u x d H). ring.
+Qed.
+
+Lemma mv_length : forall P x, length (mv P x) = length P.
+Proof. intros. unfold mv. apply map_length. Qed.
+
+(* linear: affine *)
+Lemma expand_linear : forall q r x d, length x = length d ->
+  fst (lin_vgrad q r (vadd x d)) == fst (lin_vgrad q r x) + dot (snd (lin_vgrad q r x)) d.
+Proof. intros q r x d H. unfold lin_vgrad. simpl. rewrite dot_vadd_r by exact H. ring. Qed.
+
+(* Euclidean ball: remainder |d|^2 (hence convex) *)
+Lemma expand_ball_aux : forall x o d, length o = length x -> length d = length x ->
+  dot (vadd (vadd x d) (map (Qmult (-1)) o)) (vadd (vadd x d) (map (Qmult (-1)) o)) ==
+  dot (vadd x (map (Qmult (-1)) o)) (vadd x (map (Qmult (-1)) o)) +
+  dot (map (Qmult 2) (vadd x (map (Qmult (-1)) o))) d + dot d d.
+Proof.
+  induction x as [|a x IH]; intros o d Ho Hd; destruct o as [|b o], d as [|c d]; simpl in *; try discriminate; [ring|].
+  rewrite IH by lia. ring.
+Qed.
+Lemma expand_ball : forall o r x d, length o = length x -> length d = length x ->
+  fst (ball_vgrad o r (vadd x d)) == fst (ball_vgrad o r x) + dot (snd (ball_vgrad o r x)) d + dot d d.
+Proof.
+  intros o r x d Ho Hd. unfold ball_vgrad, vsub, vscale. simpl. rewrite expand_ball_aux by assumption. ring.
+Qed.
+
+Lemma dot_self_nonneg : forall d, 0 <= dot d d.
+Proof. induction d as [|a d IH]; simpl; [lra | nra]. Qed.
+
+(* quadratic: remainder 1/2 d.Pd, provided P is symmetric (the code's gradient is P x + q) *)
+Definition sym_form (P : list vec) (n : nat) : Prop :=
+  forall u v, length u = n -> length v = n -> dot u (mv P v) == dot v (mv P u).
+
+Lemma expand_quadratic : forall P q r x d, sym_form P (length x) -> length d = length x -> length q = length P ->
+  fst (quad_vgrad P q r (vadd x d)) ==
+  fst (quad_vgrad P q r x) + dot (snd (quad_vgrad P q r x)) d + (1 # 2) * dot d (mv P d).
+Proof.
+  intros P q r x d Hs Hd Hq. unfold quad_vgrad. simpl.
+  rewrite (dot_vadd_l x d) by lia. rewrite !mv_vadd by lia. rewrite (dot_vadd_r q x d) by lia.
+  rewrite (dot_vadd_l (mv P x) q d) by (rewrite mv_length; lia).
+  rewrite (Hs x d) by lia. rewrite (dot_comm (mv P x) d). ring.
+Qed.
+
+(* bounds / constants: value changes by +-d(k), gradient is the signed unit vector *)
+Lemma expand_max : forall v k x d,
+  fst (max_vgrad v k (vadd x d)) == fst (max_vgrad v k x) + 1 * vnth d k.
+Proof. intros. unfold max_vgrad. simpl. rewrite vnth_vadd. ring. Qed.
+Lemma expand_min : forall v k x d,
+  fst (min_vgrad v k (vadd x d)) == fst (min_vgrad v k x) + (-1) * vnth d k.
+Proof. intros. unfold min_vgrad. simpl. rewrite vnth_vadd. ring. Qed.
+
+Lemma vnth_unit_vec : forall n k s j,
+  vnth (unit_vec n k s) j = if (j <? n)%nat && (j =? k)%nat then s else 0.
+Proof.
+  intros n k s j. unfold vnth, unit_vec. set (f := fun i => if (i =? k)%nat then s else 0).
+  destruct (Nat.ltb_spec j n) as [H | H]; cbn [andb].
+  - rewrite nth_indep with (d' := f 0%nat) by (rewrite map_length, seq_length; lia).
+    rewrite map_nth. rewrite seq_nth by lia. reflexivity.
+  - rewrite nth_overflow by (rewrite map_length, seq_length; lia). reflexivity.
+Qed.
+
+(* the same statements per constraint kind of the variant *)
+Definition remainder (c : constraint) (d : vec) : Q :=
+  match c with
+  | CBallEq _ _ | CBallIneq _ _ => dot d d
+  | CQuadEq P _ _ | CQuadIneq P _ _ => (1 # 2) * dot d (mv P d)
+  | _ => 0
+  end.
+Definition well_formed (c : constraint) (n : nat) : Prop :=
+  match c with
+  | CConstant _ k | CMinimum _ k | CMaximum _ k => (k < n)%nat
+  | CBallEq o _ | CBallIneq o _ => length o = n
+  | CLinEq q _ | CLinIneq q _ => length q = n
+  | CQuadEq P q _ | CQuadIneq P q _ => sym_form P n /\ length q = length P
+  | CFunEq _ | CFunIneq _ => False
+  end.
+(* grad . d, with the unit-vector gradients of the bound kinds read component-wise *)
+Definition directional (c : constraint) (x d : vec) : Q :=
+  match c with
+  | CConstant _ k | CMaximum _ k => vnth d k
+  | CMinimum _ k => - vnth d k
+  | _ => dot (snd (cvgrad c x)) d
+  end.
+
+Theorem grad_is_derivative : forall c x d, well_formed c (length x) -> length d = length x ->
+  fst (cvgrad c (vadd x d)) == fst (cvgrad c x) + directional c x d + remainder c d.
+Proof.
+  intros c x d Hw Hd. destruct c; simpl in Hw; unfold directional, remainder; simpl cvgrad.
+  - rewrite expand_max. ring.
+  - rewrite expand_min. ring.
+  - rewrite expand_max. ring.
+  - rewrite expand_ball by lia. reflexivity.
+  - rewrite expand_ball by lia. reflexivity.
+  - rewrite expand_linear by lia. ring.
+  - rewrite expand_linear by lia. ring.
+  - destruct Hw as [Hs Hq]. rewrite expand_quadratic by (auto; lia). reflexivity.
+  - destruct Hw as [Hs Hq]. rewrite expand_quadratic by (auto; lia). reflexivity.
+  - contradiction.
+  - contradiction.
+Qed.
+
+(* ... and the bound kinds' gradients are the signed unit vectors *)
+Theorem bound_gradients : forall v k x j,
+  vnth (snd (cvgrad (CConstant v k) x)) j = (if (j <? length x)%nat && (j =? k)%nat then 1 else 0) /\
+  vnth (snd (cvgrad (CMaximum v k) x)) j = (if (j <? length x)%nat && (j =? k)%nat then 1 else 0) /\
+  vnth (snd (cvgrad (CMinimum v k) x)) j = (if (j <? length x)%nat && (j =? k)%nat then -1 else 0).
+Proof. intros. simpl. repeat split; apply vnth_unit_vec. Qed.
+
+(* kinds classified as equalities / linear equalities by the translated predicates *)
+Lemma is_equality_spec : forall c,
+  is_equality c = match c with
+                  | CConstant _ _ | CBallEq _ _ | CLinEq _ _ | CQuadEq _ _ _ | CFunEq _ => true
+                  | _ => false
+                  end.
+Proof. intros c. destruct c; reflexivity. Qed.
+Lemma is_linear_equality_spec : forall c,
+  is_linear_equality c = match c with CConstant _ _ | CLinEq _ _ => true | _ => false end.
+Proof. intros c. destruct c; reflexivity. Qed.
+
+(* ================================================================================================ *)
+(* the convex flag: convex objective, convex inequalities, affine equalities => sub-gradient         *)
+(* inequality P(y) >= P(x) + G(x).(y - x) for the three penalty objects                              *)
+(* ================================================================================================ *)
+(* n-dimensional dot product read component-wise (no length side conditions) *)
+Definition dotn (n : nat) (u d : vec) : Q := qsum (map (fun j => vnth u j * vnth d j) (seq 0 n)).
+
+Lemma dotn_step : forall n u v w k d,
+  (forall j, vnth u j == vnth v j + k * vnth w j) -> dotn n u d == dotn n v d + k * dotn n w d.
+Proof.
+  intros n u v w k d H. unfold dotn. generalize (seq 0 n). induction l as [|j l IH]; simpl; [ring|].
+  rewrite H, IH. ring.
+Qed.
+
+Lemma fold_acc_dot : forall (A : Type) (step : acc -> A -> acc) (tg : A -> Q) (gr : A -> vec),
+  (forall a e j, vnth (snd (step a e)) j == vnth (snd a) j + tg e * vnth (gr e) j) ->
+  forall n d es a,
+    dotn n (snd (fold_left step es a)) d == dotn n (snd a) d + qsum (map (fun e => tg e * dotn n (gr e) d) es).
+Proof.
+  intros A step tg gr Hg n d. induction es as [|e es IH]; intros a; simpl; [ring|].
+  rewrite IH. rewrite (dotn_step n _ _ _ _ d (Hg a e)). ring.
+Qed.
+
+Lemma qsum_Forall2_le : forall (A B : Type) (R : A -> B -> Prop) (F : A -> Q) (G : B -> Q),
+  (forall a b, R a b -> F a <= G b) -> forall la lb, Forall2 R la lb -> qsum (map F la) <= qsum (map G lb).
+Proof.
+  intros A B R F G H la lb HF. induction HF as [|a b la lb Hab _ IH]; simpl; [lra|].
+  pose proof (H a b Hab). lra.
+Qed.
+
+Lemma qsum_plus : forall (A : Type) (F G : A -> Q) l,
+  qsum (map (fun a => F a + G a) l) == qsum (map F l) + qsum (map G l).
+Proof. intros A F G. induction l as [|a l IH]; simpl; [ring | rewrite IH; ring]. Qed.
+
+Lemma qabs_compat : forall a b, a == b -> qabs a == qabs b.
+Proof. intros a b H. unfold qabs. qcases; lra. Qed.
+Lemma qmax0_mono : forall a b, a <= b -> qmax 0 a <= qmax 0 b.
+Proof. intros a b H. unfold qmax. qcases; lra. Qed.
+
+(* ex, ey: the same constraint evaluated at x and at y = x + d; equalities are affine, inequalities convex *)
+Definition along (n : nat) (d : vec) (ex ey : cev) : Prop :=
+  ce_eq ey = ce_eq ex /\
+  (if ce_eq ex then ce_val ey == ce_val ex + dotn n (ce_grad ex) d
+   else ce_val ex + dotn n (ce_grad ex) d <= ce_val ey).
+
+Lemma lin_term_convex : forall rho n d ex ey, 0 <= rho -> along n d ex ey ->
+  lin_tv rho ex + lin_tg rho ex * dotn n (ce_grad ex) d <= lin_tv rho ey.
+Proof.
+  intros rho n d ex ey Hr [He Hv]. unfold lin_tv, lin_tg. rewrite He. destruct (ce_eq ex).
+  - rewrite (qabs_compat _ _ Hv). apply term_abs_subgradient. exact Hr.
+  - apply term_hinge_subgradient; assumption.
+Qed.
+
+Lemma quad_term_convex : forall rho n d ex ey, 0 <= rho -> along n d ex ey ->
+  quad_tv rho ex + quad_tg rho ex * dotn n (ce_grad ex) d <= quad_tv rho ey.
+Proof.
+  intros rho n d ex ey Hr [He Hv]. unfold quad_tv, quad_tg. rewrite He. destruct (ce_eq ex).
+  - rewrite Hv. set (s := dotn n (ce_grad ex) d). set (v := ce_val ex).
+    assert (0 <= rho * (s * s)) by nra. nra.
+  - pose proof (term_hinge_square rho (ce_val ex) (dotn n (ce_grad ex) d) (ce_val ey) Hr Hv) as H.
+    revert H. generalize (qmax 0 (ce_val ex)) (qmax 0 (ce_val ey)) (dotn n (ce_grad ex) d). intros a b c H. lra.
+Qed.
+
+Theorem convex_linear : forall rho n d fx fy esx esy,
+  0 <= rho -> fst fx + dotn n (snd fx) d <= fst fy -> Forall2 (along n d) esx esy ->
+  fst (linear_penalty rho fx esx) + dotn n (snd (linear_penalty rho fx esx)) d <= fst (linear_penalty rho fy esy).
+Proof.
+  intros rho n d fx fy esx esy Hr Hf Ha. unfold linear_penalty.
+  destruct (fold_acc cev (lin_step rho) (lin_tv rho) (lin_tg rho) ce_grad
+                     (lin_step_value rho) (lin_step_grad rho) esx fx) as [Xv _].
+  destruct (fold_acc cev (lin_step rho) (lin_tv rho) (lin_tg rho) ce_grad
+                     (lin_step_value rho) (lin_step_grad rho) esy fy) as [Yv _].
+  rewrite Xv, Yv, (fold_acc_dot cev (lin_step rho) (lin_tg rho) ce_grad (lin_step_grad rho)).
+  pose proof (qsum_Forall2_le cev cev (along n d)
+                (fun e => lin_tv rho e + lin_tg rho e * dotn n (ce_grad e) d) (lin_tv rho)
+                (fun a b H => lin_term_convex rho n d a b Hr H) esx esy Ha) as Hs.
+  rewrite qsum_plus in Hs. lra.
+Qed.
+
+Theorem convex_quadratic : forall rho n d fx fy esx esy,
+  0 <= rho -> fst fx + dotn n (snd fx) d <= fst fy -> Forall2 (along n d) esx esy ->
+  fst (quadratic_penalty rho fx esx) + dotn n (snd (quadratic_penalty rho fx esx)) d <=
+  fst (quadratic_penalty rho fy esy).
+Proof.
+  intros rho n d fx fy esx esy Hr Hf Ha. unfold quadratic_penalty.
+  destruct (fold_acc cev (quad_step rho) (quad_tv rho) (quad_tg rho) ce_grad
+                     (quad_step_value rho) (quad_step_grad rho) esx fx) as [Xv _].
+  destruct (fold_acc cev (quad_step rho) (quad_tv rho) (quad_tg rho) ce_grad
+                     (quad_step_value rho) (quad_step_grad rho) esy fy) as [Yv _].
+  rewrite Xv, Yv, (fold_acc_dot cev (quad_step rho) (quad_tg rho) ce_grad (quad_step_grad rho)).
+  pose proof (qsum_Forall2_le cev cev (along n d)
+                (fun e => quad_tv rho e + quad_tg rho e * dotn n (ce_grad e) d) (quad_tv rho)
+                (fun a b H => quad_term_convex rho n d a b Hr H) esx esy Ha) as Hs.
+  rewrite qsum_plus in Hs. lra.
+Qed.
+
+(* augmented Lagrangian: the same multipliers are paired with the same constraints at x and at y *)
+Definition along_p (rho : Q) (n : nat) (d : vec) (px py : cev * Q) : Prop :=
+  along n d (fst px) (fst py) /\ snd py = snd px.
+
+Lemma pair_mults_along : forall rho n d esx esy, Forall2 (along n d) esx esy ->
+  forall ls ms, Forall2 (along_p rho n d) (pair_mults esx ls ms) (pair_mults esy ls ms).
+Proof.
+  intros rho n d esx esy H. induction H as [|ex ey esx esy Hxy _ IH]; intros ls ms; simpl; [constructor|].
+  destruct Hxy as [He Hv]. rewrite He. destruct (ce_eq ex) eqn:E; constructor; try apply IH;
+    (split; [split; [simpl; rewrite E; exact He | simpl; rewrite E; exact Hv] | reflexivity]).
+Qed.
+
+Lemma al_term_convex : forall rho n d px py, 0 < rho -> along_p rho n d px py ->
+  al_tv rho px + al_tg rho px * dotn n (ce_grad (fst px)) d <= al_tv rho py.
+Proof.
+  intros rho n d px py Hr [[He Hv] Hm]. unfold al_tv, al_tg, shifted. rewrite He, Hm.
+  set (s := dotn n (ce_grad (fst px)) d) in *. set (m := snd px / rho).
+  destruct (ce_eq (fst px)).
+  - rewrite Hv. set (v := ce_val (fst px)). assert (0 <= rho * (s * s)) by nra. nra.
+  - assert (Hy : (ce_val (fst px) + m) + s <= ce_val (fst py) + m) by lra.
+    assert (Hk : 0 <= (1 # 2) * rho) by lra.
+    pose proof (term_hinge_square ((1 # 2) * rho) _ s _ Hk Hy) as H.
+    revert H. generalize (qmax 0 (ce_val (fst px) + m)) (qmax 0 (ce_val (fst py) + m)). intros a b H. lra.
+Qed.
+
+Theorem convex_augmented : forall rho lambda miu n d fx fy esx esy,
+  0 < rho -> fst fx + dotn n (snd fx) d <= fst fy -> Forall2 (along n d) esx esy ->
+  fst (augmented_lagrangian rho lambda miu fx esx) + dotn n (snd (augmented_lagrangian rho lambda miu fx esx)) d <=
+  fst (augmented_lagrangian rho lambda miu fy esy).
+Proof.
+  intros rho lambda miu n d fx fy esx esy Hr Hf Ha. unfold augmented_lagrangian. rewrite !al_fold_pairs.
+  destruct (fold_acc (cev * Q) (al_pstep rho) (al_tv rho) (al_tg rho) (fun p => ce_grad (fst p))
+                     (al_pstep_value rho) (al_pstep_grad rho) (pair_mults esx lambda miu) fx) as [Xv _].
+  destruct (fold_acc (cev * Q) (al_pstep rho) (al_tv rho) (al_tg rho) (fun p => ce_grad (fst p))
+                     (al_pstep_value rho) (al_pstep_grad rho) (pair_mults esy lambda miu) fy) as [Yv _].
+  rewrite Xv, Yv, (fold_acc_dot (cev * Q) (al_pstep rho) (al_tg rho) (fun p => ce_grad (fst p)) (al_pstep_grad rho)).
+  pose proof (qsum_Forall2_le (cev * Q) (cev * Q) (along_p rho n d)
+                (fun p => al_tv rho p + al_tg rho p * dotn n (ce_grad (fst p)) d) (al_tv rho)
+                (fun a b H => al_term_convex rho n d a b Hr H) _ _ (pair_mults_along rho n d esx esy Ha lambda miu)) as Hs.
+  rewrite qsum_plus in Hs. lra.
+Qed.
+
+(* what the flag of the penalty objects requires of every constraint (logic of ::convex(function)) *)
+Lemma pen_convex_spec : forall fconvex cos, pen_convex fconvex cos = true ->
+  fconvex = true /\
+  Forall (fun co => ct_convex co = true /\ (is_equality (fst co) = true -> is_linear_equality (fst co) = true)) cos.
+Proof.
+  intros fconvex cos H. unfold pen_convex in H. apply andb_true_iff in H. destruct H as [Hf Hc]. split; [exact Hf|].
+  apply Forall_forall. intros co Hin. rewrite forallb_forall in Hc. specialize (Hc co Hin).
+  unfold src_pen_convex_ct in Hc. apply andb_true_iff in Hc. destruct Hc as [H1 H2]. split; [exact H1|].
+  intro He. rewrite He in H2. simpl in H2. exact H2.
+Qed.
